@@ -9,7 +9,7 @@ RULE = ("parameter trees (sequence/choice nesting, every optional marking, incl.
         "vectors (every positional prefix with values/None, every keyword subset incl. duplicates and unknown "
         "names) x extraArgumentErrors; small trees exhaustively, larger sampled; non-trivial = the tree has a "
         "choice or the vector is not the plain all-positional call; distinct = distinct (tree, vector, flag)"
-        ' ; plus: bad calls with unwrapping disabled, extraArgumentErrors switched on a client in use, unknown keywords with None values and reserved-looking names')
+        ' ; plus: bad calls with unwrapping disabled, extraArgumentErrors switched on a client in use, unknown keywords with None values and reserved-looking names; rejected calls under faults=False and with an injected reply; wrapper types carrying an attribute (dict key _id)')
 ASSUMPTIONS = ["ancestry items are compared by identity (`is`), modelled as unique ids",
                "Python dict preserves keyword insertion order (first leftover keyword is reported)"]
 PARTIAL = [
@@ -288,11 +288,14 @@ def client_checks(ctx):
         top_kind = rng.choice(["sequence", "all"]) if all(it[0] == "leaf" for it in f) else "sequence"
         jf = number(f)
         inner = schema_of(jf)
-        schema = ('<xsd:element name="f"><xsd:complexType><xsd:%s>%s</xsd:%s></xsd:complexType></xsd:element>'
-                  % (top_kind, inner, top_kind))
+        # (the wrapper type may carry an XML attribute: not a parameter, but a key `_id` of a dict / factory object)
+        with_attr = rng.random() < 0.5
+        schema = ('<xsd:element name="f"><xsd:complexType><xsd:%s>%s</xsd:%s>%s</xsd:complexType></xsd:element>'
+                  % (top_kind, inner, top_kind, '<xsd:attribute name="id" type="xsd:string"/>' if with_attr else ""))
         w = wsdlkit.wsdl_doc(schema, "f", None)
         tr = wsdlkit.RecordingTransport(reply=None)
         c = wsdlkit.client(w, transport=tr)
+        c_nofaults = wsdlkit.client(w, nosend=True, faults=False)
         c_ns = wsdlkit.client(w, nosend=True)
         c_lax = wsdlkit.client(w, nosend=True, extraArgumentErrors=False)
         c_raw = wsdlkit.client(w, nosend=True, unwrap=False)
@@ -367,6 +370,18 @@ def client_checks(ctx):
                     pass
                 if len(tr.sent) != n0:
                     ctx.fail("something was sent although the call was rejected", inp, len(tr.sent) - n0, 0)
+                # rejected the same way whatever becomes of replies: faults returned as values, a simulated reply
+                for label, call in (("faults=False", lambda: c_nofaults.service.f(*args, **dict(kw))),
+                                    ("__inject reply", lambda: c_ns.service.f(*args, __inject={"reply": b""}, **dict(kw)))):
+                    try:
+                        r = call()
+                        ctx.fail("a call the rule rejects is not rejected with TypeError (%s)" % label, inp,
+                                 repr(r)[:200], real[1])
+                    except TypeError as e:
+                        if str(e) != real[1]:
+                            ctx.fail("a rejected call reports other counts (%s)" % label, inp, str(e), real[1])
+                    except Exception as e:
+                        ctx.fail("a call the rule rejects fails with another error (%s)" % label, inp, repr(e), real[1])
                 # with checking disabled the same call is not rejected
                 try:
                     c_lax.service.f(*args, **dict(kw))
@@ -435,10 +450,26 @@ def client_checks(ctx):
                 obj = c_raw.factory.create("{%s}f" % wsdlkit.TNS)
                 for nme, v in zip(names, full):
                     setattr(obj, nme, v)
+                if with_attr:
+                    obj._id = None      # (what a fresh factory object holds for an attribute is C03's matter: D29)
                 env4 = wsdlkit.envelope_bytes(c_raw.service.f(obj))
                 if not same_request(env4, real[1]):
                     ctx.fail("factory object with unwrap=False sends a different request", inp,
                              env4.decode("utf-8"), real[1].decode("utf-8"))
+                if with_attr:
+                    # the same values plus the attribute: dict (keys in any order) and factory object agree, and the
+                    # elements are the ones of the request without the attribute
+                    items2 = items + [("_id", "i7")]
+                    rng.shuffle(items2)
+                    env5 = wsdlkit.envelope_bytes(c_raw.service.f(dict(items2)))
+                    obj._id = "i7"
+                    env6 = wsdlkit.envelope_bytes(c_raw.service.f(obj))
+                    f5 = xmlread.find1(xmlread.find1(xmlread.parse(env5), "Body"), "f")
+                    f0 = xmlread.find1(xmlread.find1(xmlread.parse(real[1]), "Body"), "f")
+                    if not same_request(env5, env6) or f5["attrs"].get((None, "id")) != "i7" or \
+                            [(k_["name"], k_["text"]) for k_ in f5["children"]] != [(k_["name"], k_["text"]) for k_ in f0["children"]]:
+                        ctx.fail("dict holding an attribute key with unwrap=False sends a different request",
+                                 dict(inp, keys=[k_ for k_, _ in items2]), env5.decode("utf-8"), env6.decode("utf-8"))
             except Exception as e:
                 ctx.fail("unwrap=False call failed", inp, repr(e), "same request")
     ctx.sample({"client_schema": schema, "styles": "all positional/keyword splits, dict and factory object (unwrap=False)"})
